@@ -174,4 +174,59 @@ theorem run_sim (cfg : Cfg) (ψ : κ₂ → κ₁) (K : κ₂ → Prop) (hi : In
     have h2 := ih (fun q hq => hK q (List.mem_cons_of_mem _ hq)) _ _ h1.1
     exact ⟨h2.1, by simp only [List.map_cons, h1.2, h2.2]⟩
 
+/-! ### the same with collisions excluded only among simultaneously live connections -/
+
+/-- like `Sim`, with the key translation injective on the keys currently stored -/
+def SimLive (ψ : κ₂ → κ₁) (F₁ : Follower κ₁) (F₂ : Follower κ₂) : Prop :=
+  F₁.lastCleanup = F₂.lastCleanup ∧ F₁.streams = F₂.streams.map (mapKey ψ) ∧
+  InjOn ψ (fun k => k ∈ keys F₂.streams)
+
+/-- the next packets never belong to a connection whose key collides (under `ψ`) with a different live connection -/
+def NoLiveCollision (cfg : Cfg) (ψ : κ₂ → κ₁) (key₂ : Pkt → κ₂) (lt₂ : κ₂ → κ₂ → Bool) : Follower κ₂ → List Pkt → Prop
+  | _, [] => True
+  | F, p :: ps => (∀ e ∈ F.streams, ψ e.1 = ψ (key₂ p) → e.1 = key₂ p) ∧
+                  NoLiveCollision cfg ψ key₂ lt₂ (step cfg key₂ lt₂ F p).1 ps
+
+theorem step_simLive (cfg : Cfg) (ψ : κ₂ → κ₁) (key₂ : Pkt → κ₂)
+    (lt₁ : κ₁ → κ₁ → Bool) (lt₂ : κ₂ → κ₂ → Bool) (hlt : ∀ a b, lt₂ a b = lt₁ (ψ a) (ψ b))
+    (F₁ : Follower κ₁) (F₂ : Follower κ₂) (hs : SimLive ψ F₁ F₂) (p : Pkt)
+    (hp : ∀ e ∈ F₂.streams, ψ e.1 = ψ (key₂ p) → e.1 = key₂ p) :
+    SimLive ψ (step cfg (fun q => ψ (key₂ q)) lt₁ F₁ p).1 (step cfg key₂ lt₂ F₂ p).1 ∧
+    (step cfg (fun q => ψ (key₂ q)) lt₁ F₁ p).2 = (step cfg key₂ lt₂ F₂ p).2.map (Ev.mapKey ψ) := by
+  obtain ⟨h1, h2, h3⟩ := hs
+  let K : κ₂ → Prop := fun k => k ∈ keys F₂.streams ∨ k = key₂ p
+  have hi : InjOn ψ K := by
+    intro a b ha hb hab
+    rcases ha with ha | ha <;> rcases hb with hb | hb
+    · exact h3 a b ha hb hab
+    · subst hb
+      obtain ⟨e, he, rfl⟩ := List.mem_map.1 ha
+      exact hp e he hab
+    · subst ha
+      obtain ⟨e, he, rfl⟩ := List.mem_map.1 hb
+      exact (hp e he hab.symm).symm
+    · rw [ha, hb]
+  have hsim : Sim ψ K F₁ F₂ := ⟨h1, h2, fun e he => Or.inl (List.mem_map.2 ⟨e, he, rfl⟩)⟩
+  obtain ⟨⟨g1, g2, g3⟩, gev⟩ := step_sim cfg ψ K hi key₂ lt₁ lt₂ hlt F₁ F₂ hsim p (Or.inr rfl)
+  refine ⟨⟨g1, g2, ?_⟩, gev⟩
+  intro a b ha hb hab
+  obtain ⟨ea, hea, rfl⟩ := List.mem_map.1 ha
+  obtain ⟨eb, heb, rfl⟩ := List.mem_map.1 hb
+  exact hi _ _ (g3 ea hea) (g3 eb heb) hab
+
+theorem run_simLive (cfg : Cfg) (ψ : κ₂ → κ₁) (key₂ : Pkt → κ₂)
+    (lt₁ : κ₁ → κ₁ → Bool) (lt₂ : κ₂ → κ₂ → Bool) (hlt : ∀ a b, lt₂ a b = lt₁ (ψ a) (ψ b))
+    (h : List Pkt) (F₁ : Follower κ₁) (F₂ : Follower κ₂) (hs : SimLive ψ F₁ F₂)
+    (hc : NoLiveCollision cfg ψ key₂ lt₂ F₂ h) :
+    SimLive ψ (run cfg (fun q => ψ (key₂ q)) lt₁ F₁ h).1 (run cfg key₂ lt₂ F₂ h).1 ∧
+    (run cfg (fun q => ψ (key₂ q)) lt₁ F₁ h).2 = (run cfg key₂ lt₂ F₂ h).2.map (List.map (Ev.mapKey ψ)) := by
+  induction h generalizing F₁ F₂ with
+  | nil => exact ⟨hs, rfl⟩
+  | cons p ps ih =>
+    unfold NoLiveCollision at hc
+    unfold run
+    have h1 := step_simLive cfg ψ key₂ lt₁ lt₂ hlt F₁ F₂ hs p hc.1
+    have h2 := ih _ _ h1.1 hc.2
+    exact ⟨h2.1, by simp only [List.map_cons, h1.2, h2.2]⟩
+
 end Tins.SF
